@@ -242,7 +242,10 @@ def dump():
             o = getattr(mod, name)
             tlp[ver][name] = json.loads(o.serialize())
     return {"classes": classes, "registries": registries, "tlp": tlp,
-            "type_classes": [e.name for e in STIXTypeClass]}
+            "type_classes": [e.name for e in STIXTypeClass],
+            # the part of _check_object_constraints every class inherits (granular markings; with the
+            # proposed fix C02-modified-before-created also the created <= modified rule)
+            "base_constraints_src": method_src(_STIXBase, "_check_object_constraints")}
 
 
 if __name__ == "__main__":
